@@ -454,6 +454,13 @@ theorem identity_fields_pickled :
     carried "Component" "_active_emissions" = true ∧ carried "Component" "_inactive_emissions" = true := by
   decide
 
+/-- nothing in programs/*, scheduling/* or `simulate()` mutates in place a list of sites it was
+handed (`infra._sites` of the program's own infrastructure is passed to `Program`, every `Method` and
+every schedule): no site — and with it its pending emission lists — can drop out of what a program
+faces because of the methods it deploys -/
+theorem sites_list_untouched : Generated.Wiring.sitesListMutations = [] := by
+  decide
+
 /-- C01 for the code as extracted today -/
 theorem C01_current_code (N : Nat) (workers : List (List Nat)) (g : Store)
     (hs : ∀ s ∈ g, sortedByStart s.all = true) :
